@@ -34,6 +34,8 @@ package stmt
 //@ uf docFuncType([]byte) int
 //@ uf docParams([]byte) [][]byte
 //@ uf docOKCall([]byte) bool
+//@ uf docAlias([]byte) string
+//@ uf docExpr([]byte) []byte
 //@ uf exprOK([]byte) bool
 //@ func Marshal
 //@   assume
@@ -52,6 +54,7 @@ package stmt
 //@   ensures (result == nil && typeis(v, "*exprData")) ==> cast(v, "*exprData").Type == docType(data)
 //@   ensures (result == nil && typeis(v, "*innerCallExpr")) ==> (int(cast(v, "*innerCallExpr").FuncType) == docFuncType(data) && cast(v, "*innerCallExpr").Params == docParams(data))
 //@   ensures typeis(v, "*innerCallExpr") ==> (result == nil) == docOKCall(data)
+//@   ensures (result == nil && typeis(v, "*innerSelectItem")) ==> (cast(v, "*innerSelectItem").Alias == docAlias(data) && cast(v, "*innerSelectItem").exprData.Expr == docExpr(data))
 //@ end
 //@ # (the envelope tag decoded into an exprData is the document's tag)
 //@ func Query.UnmarshalJSON
@@ -115,6 +118,7 @@ package stmt
 //@   prop C17
 //@   modifies *
 //@   ensures result1 == nil ==> typeis(result0, "*SelectItem")
+//@   ensures[a_select_item_keeps_its_alias_and_its_expression] result1 == nil ==> (cast(result0, "*SelectItem").Alias == docAlias(value) && cast(result0, "*SelectItem").Expr == cast(exprOf(docExpr(value)), "Expr"))
 //@ end
 //@ func unmarshalOrderByExpr
 //@   prop C17
